@@ -41,8 +41,8 @@ TIERS = dict(
     quick=dict(mc=[("ref", "DecOp_mc_ref_quick.cfg", 6), ("celt", "DecOp_mc_celt_quick.cfg", 3), ("silk", "DecOp_mc_silk_quick.cfg", 3)],
                gens=[("tour", "DecOp_gen_quick.cfg", 4, 2600), ("triples", "DecOp_gen_triples_quick.cfg", 2, 900)],
                seq_chunk=450, stream=360, stream_chunk=45, fuzz=128, fuzz_chunk=32, nproc=12),
-    thorough=dict(mc=[("ref", "DecOp_mc_ref_thorough.cfg", 6), ("celt", "DecOp_mc_celt_thorough.cfg", 3), ("silk", "DecOp_mc_silk_thorough.cfg", 5),
-                      ("silkmono", "DecOp_mc_silkmono_quick.cfg", 2)],
+    thorough=dict(mc=[("ref", "DecOp_mc_ref_thorough.cfg", 6), ("ref", "DecOp_mc_ref_rates.cfg", 3), ("celt", "DecOp_mc_celt_thorough.cfg", 3),
+                      ("silk", "DecOp_mc_silk_thorough.cfg", 5), ("silkmono", "DecOp_mc_silkmono_quick.cfg", 2)],
                   gens=[("tour", "DecOp_gen_thorough.cfg", 4, 40000), ("tour_q", "DecOp_gen_quick.cfg", 3, 30284), ("triples", "DecOp_gen_triples.cfg", 3, 13824)],
                   seq_chunk=3000, stream=6000, stream_chunk=250, fuzz=2000, fuzz_chunk=125, nproc=12),
 )
@@ -381,7 +381,7 @@ def run(ctx):
     tags_mc = {}
     for fut in mc_futs:
         name, t = fut.result()
-        tags_mc[name] = t
+        tags_mc[name] = sorted(set(tags_mc.get(name, [])) | set(t))
     pool.shutdown()
     ctx.notes["model_tags"] = tags_mc
     ctx.exhaustive = True
